@@ -5,6 +5,7 @@
   kernels come from `Nice.Gen` (regenerated from the source on every run).
 -/
 import Nice.Proofs.PTcpRun
+import Nice.Props.C10Kernels
 namespace Nice.Props.C10
 open Nice.PTcp Nice.Gen Nice.Proofs.PTcp
 
